@@ -257,7 +257,10 @@ def r15d(model, ctx):
     for name, op in (("__and__", "operator.__and__"), ("__or__", "operator.__or__"), ("__xor__", "operator.__xor__")):
         fn = ms.get(name)
         stmts = [s for s in (fn.body if fn else []) if not (isinstance(s, ast.Expr) and isinstance(s.value, ast.Constant))]
-        ok = len(stmts) == 1 and unparse(stmts[0]) == f"return self.__bitop(other, {op})"
+        # operator.__or__ and operator.or_ (etc.) are the same built-in function
+        alias = {"operator.__and__": ("operator.__and__", "operator.and_"), "operator.__or__": ("operator.__or__", "operator.or_"),
+                 "operator.__xor__": ("operator.__xor__", "operator.xor")}[op]
+        ok = len(stmts) == 1 and unparse(stmts[0]) in [f"return self.__bitop(other, {a})" for a in alias]
         ctx.check(ok, R, f"FlagView.{name}", f"__bitop(other, {op})", f"FlagView.{name} must apply {op}; found "
                   f"{unparse(stmts[0]) if stmts else '-'}", f"{E}:{fn.lineno if fn else c.lineno}")
     al = model.class_assigns(c)
